@@ -21,6 +21,8 @@ from common import Ctx
 TRUSTED = [
     "Lean 4.33 kernel; axioms ⊆ {propext, Classical.choice, Quot.sound}",
     "host g++ (gnu++17) and the mock Arduino core stand in for avr-g++ and the real core: declarations the real headers lack or add are not seen",
+    "harness/pytolean.py translates `_escape_string_literal` (two `str.replace` calls with a one-character pattern = Esc.replaceChar) to Gen/Escape.lean on every run; "
+    "gen_escapeStringLiteral proves it equal to Esc.escape; the translator's reading of `str.replace` joins the trusted base",
     "WF is scoping/uniqueness/break placement on the core fragment, not the C++ type system (templates, overloads, String conversions are decided by the compiler run only)",
 ]
 
@@ -252,7 +254,7 @@ def compile_all(ctx):
 
 
 def run(ctx: Ctx) -> int:
-    ctx.prove(["Reduino.Props.C06"])
+    ctx.prove(["Reduino.Props.C06", "Reduino.GenOb.Escape"])
     common.fresh_import()
     strings(ctx)
     scoping(ctx)
